@@ -18,7 +18,7 @@
              async with send_lock:
                  if write_bio.pending: await transport.send_all(write_bio.read())
              return result                                                                                   *)
-From EN Require Import Lib.Bytes Conc.TlsBase.
+From EN Require Import Lib.Bytes Conc.TlsBase Gen.ParamsC08.
 
 (* one answer of the SSL object: which method was called, with which size argument, how it ended and what it appended
    to the outgoing BIO *)
@@ -45,14 +45,15 @@ Inductive act :=
 
 Inductive result := ROk (v : nat) | RSsl (e : sslerr) | ROSErr | ROther | RCancel (by_timeout : bool) | RDesync.
 
-(* where the pump goes after a flush *)
-Inductive cont := KRead | KLoop | KRet (v : nat).
+(* where the pump goes after a flush.  KRead carries the value of the feed counter seen right after the SSL call
+   (only used when the regenerated flag recheck_after_recv_lock is set, i.e. with meta/fixes/C08_lost_wakeup.diff) *)
+Inductive cont := KRead (snap : nat) | KLoop | KRet (v : nat).
 
 Inductive pc :=
 | PCall                 (* top of the loop: the method is about to be called *)
 | PFlush (k : cont)     (* wants the send lock *)
 | PSending (k : cont)   (* holds the send lock, send_all in flight *)
-| PRecvWait             (* wants the recv lock *)
+| PRecvWait (snap : nat) (* wants the recv lock *)
 | PRecving              (* holds the recv lock, recv_into in flight *)
 | PEnd (r : result).
 
@@ -61,13 +62,15 @@ Record shared := {
   wbio : bytes;                (* ciphertext pending in the outgoing BIO *)
   deque : list bytes;          (* _data_deque: plaintext write backlog *)
   send_lock : bool;            (* held *)
-  recv_lock : bool
+  recv_lock : bool;
+  feeds : nat                  (* number of completed readinto() calls (_IncomingDataReader.feed_count) *)
 }.
 
-Definition set_wbio (s : shared) (w : bytes) := {| wbio := w; deque := deque s; send_lock := send_lock s; recv_lock := recv_lock s |}.
-Definition set_deque (s : shared) (d : list bytes) := {| wbio := wbio s; deque := d; send_lock := send_lock s; recv_lock := recv_lock s |}.
-Definition set_send_lock (s : shared) (b : bool) := {| wbio := wbio s; deque := deque s; send_lock := b; recv_lock := recv_lock s |}.
-Definition set_recv_lock (s : shared) (b : bool) := {| wbio := wbio s; deque := deque s; send_lock := send_lock s; recv_lock := b |}.
+Definition set_wbio (s : shared) (w : bytes) := {| wbio := w; deque := deque s; send_lock := send_lock s; recv_lock := recv_lock s; feeds := feeds s |}.
+Definition set_deque (s : shared) (d : list bytes) := {| wbio := wbio s; deque := d; send_lock := send_lock s; recv_lock := recv_lock s; feeds := feeds s |}.
+Definition set_send_lock (s : shared) (b : bool) := {| wbio := wbio s; deque := deque s; send_lock := b; recv_lock := recv_lock s; feeds := feeds s |}.
+Definition set_recv_lock (s : shared) (b : bool) := {| wbio := wbio s; deque := deque s; send_lock := send_lock s; recv_lock := b; feeds := feeds s |}.
+Definition set_feeds (s : shared) (n : nat) := {| wbio := wbio s; deque := deque s; send_lock := send_lock s; recv_lock := recv_lock s; feeds := n |}.
 
 (* entering the method: __write_all_to_ssl_object with an empty backlog returns without touching the SSL object *)
 Definition pcall (m : meth) (s : shared) : pc :=
@@ -86,14 +89,15 @@ Definition expected_arg (m : meth) (bufsize : nat) (s : shared) : nat :=
 
 Definition after_flush (m : meth) (s : shared) (k : cont) : pc :=
   match k with
-  | KRead => PRecvWait
+  | KRead n => PRecvWait n
   | KLoop => pcall m s
   | KRet v => PEnd (ROk v)
   end.
 
 (* LGo = the task acquires the lock it is waiting for (asyncio.Lock.acquire does not suspend when the lock is free):
    send lock: `if write_bio.pending: await send_all(write_bio.read())` (unconditional in the WANT_WRITE branch);
-   recv lock: `await incoming_reader.readinto(read_bio)` *)
+   recv lock: `await incoming_reader.readinto(read_bio)` — with the lost-wakeup fix only if nobody fed the SSL object
+   since this task's SSL call (otherwise the lock is released at once and the SSL method is retried) *)
 Definition go (m : meth) (s : shared) (p : pc) : option (shared * pc * list act) :=
   match p with
   | PFlush k =>
@@ -104,7 +108,10 @@ Definition go (m : meth) (s : shared) (p : pc) : option (shared * pc * list act)
         | [], false => Some (s, after_flush m s k, [])
         | w, _ => Some (set_send_lock (set_wbio s []) true, PSending k, [ASend w])
         end
-  | PRecvWait => if recv_lock s then None else Some (set_recv_lock s true, PRecving, [ARecv])
+  | PRecvWait n =>
+      if recv_lock s then None
+      else if recheck_after_recv_lock && negb (Nat.eqb (feeds s) n) then Some (s, pcall m s, [])
+      else Some (set_recv_lock s true, PRecving, [ARecv])
   | _ => None
   end.
 
@@ -130,25 +137,25 @@ Definition step (m : meth) (bufsize : nat) (s : shared) (p : pc) (l : lab) : opt
                 end
             | _ => Some (s1, PFlush (KRet v), [])
             end
-        | SWantRead => Some (s1, PFlush KRead, [])
+        | SWantRead => Some (s1, PFlush (KRead (feeds s1)), [])
         | SWantWrite => Some (s1, PFlush KLoop, [])
         | SErr e => Some (s1, PEnd (RSsl e), [AReof; AWeof])
         | SOSErr => Some (s1, PEnd ROSErr, [])
         | SOther => Some (s1, PEnd ROther, [])
         end
-  | PFlush _, LGo | PRecvWait, LGo => go m s p
-  | PFlush _, LT (TCancel b) | PRecvWait, LT (TCancel b) => Some (s, PEnd (RCancel b), [])
+  | PFlush _, LGo | PRecvWait _, LGo => go m s p
+  | PFlush _, LT (TCancel b) | PRecvWait _, LT (TCancel b) => Some (s, PEnd (RCancel b), [])
   | PSending k, LT TSent =>
       let s1 := set_send_lock s false in Some (s1, after_flush m s1 k, [])
   | PSending k, LT TSendErr =>
       let s1 := set_send_lock s false in
       match k with
-      | KRead => Some (s1, PEnd ROSErr, [AReof; AWeof])
+      | KRead _ => Some (s1, PEnd ROSErr, [AReof; AWeof])
       | _ => Some (s1, PEnd ROSErr, [])
       end
   | PSending k, LT (TCancel b) => Some (set_send_lock s false, PEnd (RCancel b), [])
   | PRecving, LT (TRcvd d) =>
-      let s1 := set_recv_lock s false in
+      let s1 := set_feeds (set_recv_lock s false) (S (feeds s)) in
       match d with
       | [] => Some (s1, pcall m s1, [AReof])
       | _ => Some (s1, pcall m s1, [AFeed d])
@@ -200,7 +207,7 @@ Definition run_method (m : meth) (bufsize : nat) (s : shared) (answers : list an
   let '(s2, r, acts2, rest) := retry m bufsize s1 p1 answers in
   (s2, r, acts1 ++ acts2, rest).
 
-Definition shared0 : shared := {| wbio := []; deque := []; send_lock := false; recv_lock := false |}.
+Definition shared0 : shared := {| wbio := []; deque := []; send_lock := false; recv_lock := false; feeds := 0 |}.
 
 (* ---- several tasks on one transport (full duplex): the trace is a list of labels, each addressed to one task ---- *)
 
